@@ -95,7 +95,7 @@ func actOK(a Act) bool {
 	case "", "query":
 		return true
 	case "quote":
-		return ref.FeeQuoteEditOK(a.edit())
+		return ref.FeeQuoteEditWideOK(a.edit())
 	}
 	return false
 }
@@ -179,6 +179,9 @@ func amountsOutside(c Case) string {
 	for i := -1; i < len(c.Acts); i++ { // under every state the quote goes through
 		if i >= 0 {
 			actModel(c, i, &q)
+		}
+		if !ref.FeeFits(sz, q) {
+			return "bytes x satoshis could overflow uint64"
 		}
 		fee, _, _ := ref.FeeCalc(sz, q)
 		if !fee.Add(fee, ref.FeeSumOut(c.Tx)).IsUint64() {
@@ -370,7 +373,7 @@ func check(ctx *pbt.Ctx, c Case) error {
 	c = expand(c)
 	// ---- domain ------------------------------------------------------------------
 	for _, u := range []ref.FeeUnit{c.Quote.Std, c.Quote.Data} {
-		if u.Bytes < 1 || u.Sat < 0 || u.Sat > 1000000 || u.Bytes > 1000000 {
+		if !ref.FeeUnitWideOK(u) { // any positive byte denominator, any non-negative amount (judged where the products fit, see amountsOutside)
 			ctx.Discard("quote outside domain")
 			return nil
 		}
@@ -475,6 +478,15 @@ func judgeFund(ctx *pbt.Ctx, c Case, want modelResult, tx *bt.Tx, lq *ref.FeeQuo
 	// ---- labels --------------------------------------------------------------------
 	ctx.Label("result=" + want.class)
 	ctx.Label(feeTagLabel(c.Quote))
+	wideLabel(ctx, want.quote)
+	if sh := gen.C10OutpointShape(c.Tx.In); sh != "" {
+		ctx.Label("start:" + sh)
+	}
+	if want.class == resOK {
+		if sh := gen.C10OutpointShape(want.final.In); sh != "" {
+			ctx.Label("funded:" + sh)
+		}
+	}
 	ctx.Labelf("calls=%d", min(len(want.deficits), 6))
 	switch n := len(want.deficits); {
 	case n > 1000:
@@ -664,6 +676,57 @@ func genQuoteBuild(t *rapid.T, q *ref.FeeQuote) {
 	}
 }
 
+// genQuoteWiden rewrites, in about one quote in eight, one or both mining rates with huge
+// numbers (gen.C10UnitWide: ordinary rates scaled by 2^31..2^40 or 10^9, the 2^53 neighbourhood,
+// 2^62, the largest int); two thirds of those quotes arrive through JSON.
+func genQuoteWiden(t *rapid.T, q *ref.FeeQuote) {
+	switch rapid.IntRange(0, 23).Draw(t, "wide") {
+	case 7:
+		q.Std = gen.C10UnitWide(t, "wstd")
+	case 11:
+		q.Data = gen.C10UnitWide(t, "wdata")
+	case 13:
+		q.Std, q.Data = gen.C10UnitWide(t, "wstd"), gen.C10UnitWide(t, "wdata")
+	default:
+		return
+	}
+	if rapid.IntRange(0, 2).Draw(t, "wide_json") != 0 {
+		q.Build = []int{ref.FeeBuildUnmarshal, ref.FeeBuildUsedBefore}[rapid.IntRange(0, 1).Draw(t, "wide_build")]
+	}
+	if q.Build == ref.FeeBuildShared {
+		q.Data, q.DataRelay = q.Std, q.StdRelay
+	}
+}
+
+// genEditWiden does the same to a quote edit, in about one edit in eight.
+func genEditWiden(t *rapid.T, unit, unit2 *ref.FeeUnit, via *string) {
+	if rapid.IntRange(0, 7).Draw(t, "wide_edit") != 5 {
+		return
+	}
+	*unit = gen.C10UnitWide(t, "wunit")
+	if rapid.Bool().Draw(t, "wide2") {
+		*unit2 = gen.C10UnitWide(t, "wunit2")
+	}
+	if rapid.IntRange(0, 2).Draw(t, "wide_json") != 0 {
+		*via = "unmarshal"
+	}
+}
+
+func wideLabel(ctx *pbt.Ctx, q ref.FeeQuote) {
+	if !ref.FeeQuoteIsWide(q) {
+		return
+	}
+	ctx.Label("fee-unit-numbers>10^6")
+	for _, u := range []ref.FeeUnit{q.Std, q.Data} {
+		if u.Sat >= 1<<32 {
+			ctx.Label("fee-unit-satoshis>=2^32")
+		}
+		if u.Sat > 1<<53 || u.Bytes > 1<<53 {
+			ctx.Label("fee-unit-numbers>2^53")
+		}
+	}
+}
+
 func genBadScript(t *rapid.T) pbt.Hex {
 	switch rapid.IntRange(0, 3).Draw(t, "badscript_k") {
 	case 0:
@@ -685,6 +748,7 @@ func genCase(t *rapid.T) Case {
 	c.Quote = ref.FeeQuote{Std: genUnit(t, "std"), Data: genUnit(t, "data"), StdRelay: genUnit(t, "stdrelay"), DataRelay: genUnit(t, "datarelay"),
 		StdTag: genFeeTag(t, "stdtag"), DataTag: genFeeTag(t, "datatag")}
 	genQuoteBuild(t, &c.Quote)
+	genQuoteWiden(t, &c.Quote)
 	nout := []int{1, 2, 0, 3, 4, 5}[rapid.IntRange(0, 5).Draw(t, "nout")]
 	for i := 0; i < nout; i++ {
 		var o ref.Out
@@ -695,6 +759,9 @@ func genCase(t *rapid.T) Case {
 			o.Script = append([]byte{0x6a}, gen.FillBytes(t, gen.EdgeLen(t, 1000, "dlen", 0, 1, 75, 76, 252, 253), "payload")...)
 		case 4:
 			o.Script = append([]byte{0x00, 0x6a}, gen.FillBytes(t, gen.EdgeLen(t, 1000, "dlen", 0, 1, 75, 76, 252, 253), "payload")...)
+			if rapid.IntRange(0, 3).Draw(t, "template_payload") == 2 { // pushes that start with opcode-valued bytes
+				o.Script = append([]byte{0x00, 0x6a}, gen.C10DataPayload(t, "tpl")...)
+			}
 		default:
 			o.Script = gen.FillBytes(t, gen.EdgeLen(t, 100, "slen", 0, 1, 25), "oscript")
 		}
@@ -723,6 +790,8 @@ func genCase(t *rapid.T) Case {
 		}
 		c.Tx.In = append(c.Tx.In, in)
 	}
+	c.Tx.In = gen.C10SpecialOutpoints(t, c.Tx.In)
+	nprior = len(c.Tx.In)
 	if ref.Ambiguous(c.Tx) {
 		c.Tx.LockTime = 0
 	}
@@ -856,6 +925,7 @@ func genBatches(t *rapid.T, start ref.Tx, q ref.FeeQuote) (batches [][]U, acts [
 		case 9:
 			a = Act{Kind: "quote", Data: rapid.Bool().Draw(t, "act_data"), Unit: genUnit(t, "act_unit"), Tag: genFeeTag(t, "act_tag"),
 				Via: genQuoteVia(t, "act_via"), Unit2: genUnit(t, "act_unit2")}
+			genEditWiden(t, &a.Unit, &a.Unit2, &a.Via)
 			ref.FeeQuoteEditModel(&q, a.edit())
 		}
 		acts = append(acts, a)
@@ -914,6 +984,9 @@ func genBatches(t *rapid.T, start ref.Tx, q ref.FeeQuote) (batches [][]U, acts [
 				u.Script = genBadScript(t)
 			case k == 61:
 				u.Script, u.ScriptNil = nil, true
+			case k == 37 || k == 41: // the null outpoint as a funding source (inputs get the final sequence)
+				u.TxID = make(pbt.Hex, 32)
+				u.Vout = rapid.SampledFrom([]uint32{0xffffffff, 0, 1}).Draw(t, "null_vout")
 			}
 			batch = append(batch, u)
 			if len(u.TxID) == 32 {
